@@ -7,10 +7,12 @@ open Lean Psutil Psutil.Proto Psutil.C07
 structure DSt where
   st : St
   pst : PSt
-  hist : List Call      -- chronological
+  hist : List Call      -- chronological, filed under the identifier (`tid`)
   phist : List PCall
+  histT : List Call     -- the same calls filed under the calling THREAD (`thr`, default = `tid`)
+  imp : Option (Tid × Bytes × Bytes)   -- importing thread and the two import-time reads
 
-def DSt.init : DSt := ⟨St.init, PSt.init, [], []⟩
+def DSt.init : DSt := ⟨St.init, PSt.init, [], [], [], none⟩
 
 def asRat (j : Json) : R Rat :=
   match j.getArr? with
@@ -50,7 +52,7 @@ def timesOf (l : List Rat) : Spec.Times :=
   ⟨l.getD 0 0, l.getD 1 0, l.getD 2 0, l.getD 3 0, l.getD 4 0, l.getD 5 0, l.getD 6 0,
    l.getD 7 0, l.getD 8 0, l.getD 9 0⟩
 
-inductive Mode | rounded | exact | total
+inductive Mode | rounded | exact | total | lens
 
 def specOne (nf : Nat) (m : Mode) (fn : Fn) (a b : Sample) : Val :=
   let o := timesOf a
@@ -68,14 +70,24 @@ def specOne (nf : Nat) (m : Mode) (fn : Fn) (a b : Sample) : Val :=
   | .exact, .timesPercent =>
     .tup (if tot = 0 then (Spec.advs nf o n).map fun _ => 0
           else (Spec.advs nf o n).map (Spec.shareExact nf o n))
+  | .lens, _ => .nums [1, 1]
 
 def specCmp (nf : Nat) (m : Mode) (fn : Fn) : Stored → Stored → PRes Val
-  | .one a, .one b => .ok (specOne nf m fn a b)
+  | .one a, .one b =>
+    match m with
+    | .lens => .ok (.nums [1, 1])
+    | _ => .ok (specOne nf m fn a b)
   | .many as, .many bs =>
+    match m with
+    | .lens => .ok (.nums [(as.length : Rat), (bs.length : Rat)])   -- how many CPUs each sample has
+    | _ =>
     let vs := List.zipWith (specOne nf m fn) as bs
     let asTups := Val.tups (vs.map fun v => match v with | .tup x => x | _ => [])
     match m, fn with
     | .total, _ => .ok asTups
+    | .rounded, .percent =>
+      -- the record-level specification of the per-CPU form (Spec.perCpuPercent)
+      .ok (.nums (Spec.perCpuPercent nf (as.map timesOf) (bs.map timesOf)))
     | _, .percent => .ok (.nums (vs.map fun v => match v with | .num x => x | _ => 0))
     | _, .timesPercent => .ok asTups
   | _, _ => .error .typeError
@@ -133,22 +145,57 @@ def handle (d : DSt) (j : Json) : R (DSt × Json) := do
     let nf := e.fields.length
     return (d, jObj [("model", jObj [("sys", jPRes jRats (cpuTimes cfg nf tck data)),
                                      ("per", jPRes (jList jRats) (perCpuTimes cfg nf tck data))])])
+  if op == "tokens" then
+    -- which of these tokens are in the kernel's `%llu` grammar (Spec.isKernelTok), and their values
+    let toks ← listF asBytes j "toks"
+    return (d, jObj [("grammar", jList (fun t => Json.bool (Spec.isKernelTok t)) toks),
+                     ("value", jList (fun t => match parseDec? t with
+                                               | some n => jNat n
+                                               | none => Json.null) toks)])
+  if op == "import" then
+    -- the module-level code run by thread `tid`: `reads` = /proc/stat at `cpu_times()` and at
+    -- `cpu_times(percpu=True)`; `vlen` = number of values `set_scputimes_ntuple` saw
+    let vlen ← natF j "vlen"
+    let tck ← natF j "tck"
+    let tid ← natF j "tid"
+    let reads ← listF asBytes j "reads"
+    match reads with
+    | [r0, r1] =>
+      let e : Env := ⟨cfg, vlen, tck⟩
+      let s := importState e tid r0 r1
+      let has (f : Fam) (t : Tid) (st : Fam → Tid → Option Stored) : Json := Json.bool (st f t).isSome
+      let fams : List Fam := [⟨.percent, false⟩, ⟨.percent, true⟩, ⟨.timesPercent, false⟩, ⟨.timesPercent, true⟩]
+      return ({ DSt.init with st := s, imp := some (tid, r0, r1) },
+        jObj [("model", jList (fun f => has f tid s) fams),
+              ("spec", jList (fun f => has f tid (Spec.importSample (sample e) tid r0 r1)) fams)])
+    | _ => .error "import needs exactly two reads"
   if op == "call" then
     let vlen ← natF j "vlen"
     let tck ← natF j "tck"
     let fn ← strF j "fn" >>= parseFn
     let tid ← natF j "tid"
+    let thr ← (optF asNat j "thr")
     let interval ← optF asRat j "interval"
     let percpu ← boolF j "percpu"
     let reads ← listF asBytes j "reads"
     let e : Env := ⟨cfg, vlen, tck⟩
     let c : Call := ⟨fn, tid, interval, percpu, reads⟩
+    let cT : Call := ⟨fn, thr.getD tid, interval, percpu, reads⟩
     let (s', out) := step e d.st c
     let snf := Spec.nfOf vlen
-    let sp (m : Mode) := Spec.expected (sample e) (specCmp snf m) d.hist c
-    return ({ d with st := s', hist := d.hist ++ [c] },
+    let sp (m : Mode) : Out :=
+      match d.imp with
+      | none => Spec.expected (sample e) (specCmp snf m) d.hist c
+      | some (t0, r0, r1) => Spec.expectedSinceImport (sample e) (specCmp snf m) t0 r0 r1 d.hist c
+    -- the same call measured against the calling THREAD's own previous sample (differs from
+    -- "spec" only when two threads of the history share an identifier)
+    let spT : Out :=
+      match d.imp with
+      | none => Spec.expected (sample e) (specCmp snf .rounded) d.histT cT
+      | some (t0, r0, r1) => Spec.expectedSinceImport (sample e) (specCmp snf .rounded) t0 r0 r1 d.histT cT
+    return ({ d with st := s', hist := d.hist ++ [c], histT := d.histT ++ [cT] },
       jObj [("model", jOut out), ("spec", jOut (sp .rounded)), ("exact", jOut (sp .exact)),
-            ("total", jOut (sp .total))])
+            ("total", jOut (sp .total)), ("lens", jOut (sp .lens)), ("thread", jOut spT)])
   if op == "pcall" then
     let tck ← natF j "tck"
     let obj ← natF j "obj"
